@@ -21,7 +21,7 @@ RULE = ("requests `mulr|divr|quant <form> <lhs> <rhs> [n]` under each of the 8 t
         "intermediate beyond i128")
 BUILDS = {"quick": [("dev", ()), ("release", ())],
           "thorough": [("dev", ()), ("release", ()), ("release", ("packed",)), ("o0-nochk", ())]}
-REQUIRED_SITES = {"divr.eq": 100, "divr.less.narrow": 100, "divr.less.wide": 100, "divr.greater.fit": 100,
+REQUIRED_SITES = {"round_quot.overflow": 2, "divr.eq": 100, "divr.less.narrow": 100, "divr.less.wide": 100, "divr.greater.fit": 100,
                   "divr.greater.ovf": 50, "mulr.exact": 100, "mulr.narrow": 100, "mulr.wide": 50,
                   "round_quot.tie": 100}
 BUDGET = {"quick": 25, "thorough": 300}
@@ -185,6 +185,49 @@ def constructed(rng):
         add("mulr", G.fD(sg(rng, a), p), G.fD(sg(rng, b), q), n)
     for n in (19, 20, 100, 255):
         add("mulr", G.fD(15, 1), G.fD(25, 1), n)
+    # floor quotient == 2^127-1 with non-zero remainder (an upward mode must signal, never wrap)
+    for _ in range(40):
+        sh = rng.randrange(1, 19)
+        for _try in range(200):
+            a = rng.randrange(P10[sh] + 1, 4 * P10[sh])
+            b = -((-M * P10[sh]) // a)
+            rem = a * b - M * P10[sh]
+            if b <= M and 0 <= rem < P10[sh]:
+                break
+        else:
+            continue
+        p = rng.randrange(sh, 19)
+        q = rng.randrange(0, 19)
+        n = p + q - sh
+        if 0 <= n <= 18:
+            add("mulr", G.fD(a, p), G.fD(b, q), n)
+            add("mulr", G.fD(-a, p), G.fD(b, q), n)
+    for k in range(1, 19):
+        for beta in range(2, 10):
+            need = (-beta * M) % 10
+            if 0 < need < beta:
+                a = (beta * M + need) // 10
+                b = beta * P10[k - 1]
+                for q in range(0, 19):
+                    for n in range(0, 19):
+                        p = n + q - k
+                        if 0 <= p <= 18 and rng.random() < 0.1:
+                            add("divr", G.fD(a, p), G.fD(b, q), n)
+                            add("divr", G.fD(-a, p), G.fD(-b, q), n)
+    # operands at the widths of the primitive types (narrow-type fast paths), one in every representation
+    for c in G.type_boundary_coeffs():
+        for s in (0, 2, 18):
+            n = rng.randrange(0, 19)
+            for b, q in ((1, 0), (-1, 0), (10, 1), (100, 2), (P10[18], 18), (-4, 0), (3, 0)):
+                add("divr", G.fD(c, s), G.fD(b, q), n)
+                add("mulr", G.fD(c, s), G.fD(b, q), n)
+                add("quant", G.fD(c, s), G.fD(b, q))
+    for s in range(19):
+        for t in range(0, 19, 3):
+            for n in (0, t, 18):
+                x = rng.randrange(-10 ** 12, 10 ** 12)
+                add("mulr", G.fD(x, t), G.fD(P10[s], s), n)
+                add("mulr", G.fD(P10[s], s), G.fD(x, t), n)
     # --- quantize
     quanta = [(5, 2), (25, 2), (1000, 3), (3, 0), (7, 18), (1, 18), (M, 0), (M // 3, 5), (10 ** 18, 18),
               (10 ** 17, 18), (2, 0), (-5, 1), (15, 0), (125, 1), (1, 0), (P10[18] * 7, 18)]
